@@ -36,8 +36,38 @@
                                     exact number field of C13, |k_i|^2 = 1/16
      C12_convert_heralded_example   h(0); cx(0,1): hypotheses hold, conclusion recomputed by
                                     vm_compute (8 modes, 4 photons), K conj K = 1/16.
-   Still with the oracle of harness/c12.py: allow_post_selection = True (post-selected gates leak
-   by construction; the abstract soundness statement is C12_post_selection_sound_abstract). *)
+   Third part (from "POST-SELECTION AT AMPLITUDE LEVEL" on; Proofs/DualRailPS*.v):
+   allow_post_selection = True.
+     C12_accepts_dual_rail_def      as acts_as_dual_rail, restricted to the outputs whose pair count
+                                    (photons on modes 2q, 2q+1) is 1 on every qubit of a set Dd
+     C12_postselected_leak_counts / C12_gate_conserves_photons
+                                    a gate whose heralds carry the same photons in and out conserves
+                                    the photon number; k photons on k pairs with at most one pair
+                                    count <> 1 is a dual-rail state: a non-dual-rail accepted output
+                                    of CZ / CNOT has pair counts (2,0) or (0,2), of CCZ / CCNOT a
+                                    wrong count on at least two qubits (no computation needed)
+     C12_dual_rail_step_ps          step lemma with a set of DEAD qubits (rule qubits no later
+                                    multi-qubit gate touches): leak-free gates (single-qubit,
+                                    heralded, swaps) keep the invariant; a post-selected gate does
+                                    when at most one of its qubits stays alive afterwards
+     C12_convert_postselected_correct
+                                    for EVERY program accepted with allow_post_selection = True
+                                    (swaps, routed cx/cz, heralded or post-selected as the analyser
+                                    decides, ccx/ccz): every output of the converted circuit that
+                                    the returned rules accept is a dual-rail state dr b' with
+                                    amplitude (product of the gate scalars) * V_src[b',b], or has
+                                    amplitude 0; generic in the scalar ring, gate facts in C13's
+                                    form as hypotheses; C12_kprod_ps_unit: |K|^2 is a unit
+     C12_convert_postselected_correct_tower_A
+                                    the instance in the number field of CZ/CNOT/CCZ/CCNOT (C13 tower
+                                    A, |k|^2 = 1/9, 1/72) for the programs whose emitted multi-qubit
+                                    gates are all post-selected (tower A does not contain the
+                                    constants of the heralded gates; programs mixing both kinds are
+                                    covered by the generic theorem only)
+     C12_convert_postselected_example
+                                    h(0); cx(0,1); cx(1,2): both cx post-selected, K = 1/9, accepted
+                                    outputs = dual-rail with K * V_src, and a rejected output with
+                                    non-zero amplitude exists (vm_compute, 10 modes, 3 photons). *)
 From Coq Require Import List Arith Bool PeanoNat Lia Permutation.
 From LW Require Import Base.Sx Model.Convert Proofs.ConvertP.
 Import ListNotations.
@@ -561,3 +591,212 @@ Example C12_convert_heralded_example :
   match ex_gate with Ok gt => (c_n (g_circ gt), c_in (g_circ gt), c_int (g_circ gt)) | Err _ => (0, [], []) end
   = (8, [(0, 0); (1, 1); (6, 1); (7, 0)], [0; 1; 6; 7]).
 Proof. exact convert_heralded_example. Qed.
+
+(* ====================================================================== *)
+(* POST-SELECTION AT AMPLITUDE LEVEL (allow_post_selection = True)          *)
+(* ====================================================================== *)
+From LW Require Import Proofs.DualRailPSSem Proofs.DualRailPSStep Proofs.DualRailPS Proofs.DualRailPSConv
+     Proofs.DualRailPSMain Proofs.DualRailPSA Proofs.DualRailPSEx.
+
+(* [cnt v q] = photons on the two modes of qubit q of the visible state v;
+   [okD nq Dd v] = every qubit q < nq with Dd q = true carries exactly one photon *)
+Theorem C12_pair_counts_def :
+  forall (v : list nat) (q nq : nat) (Dd : nat -> bool),
+    cnt v q = nth (2 * q) v 0 + nth (2 * q + 1) v 0 /\
+    (okD nq Dd v = true <-> forall p, p < nq -> Dd p = true -> cnt v p = 1).
+Proof. exact (fun v q nq Dd => conj eq_refl (okD_spec nq Dd v)). Qed.
+Print Assumptions C12_pair_counts_def.
+
+Theorem C12_accepts_dual_rail_def :
+  forall (K : Type) (o : ops K) (e : env (K:=K)) (c : circ (K:=K)) (nq : nat) (Kc : K * K) (V : qmat (K * K))
+         (Dd : nat -> bool),
+    accepts_dual_rail o e c nq Kc V Dd <->
+    (dr_shape c nq /\
+     exists l U, build o e c = Ok (c_n c + l, U) /\
+       forall (b : list bool) (y : list nat), In b (bits nq) -> length y = 2 * nq -> okD nq Dd y = true ->
+         exists fi fy,
+           add_heralds_to_state (dr b) (hdz (c_in c)) = Ok fi /\
+           add_heralds_to_state (map Z.of_nat y) (hdz (c_out c)) = Ok fy /\
+           let x' := znat fi ++ repeat 0 l in
+           let y' := znat fy ++ repeat 0 l in
+           (forall b', In b' (bits nq) -> y = drn b' ->
+              amp_perm (co o) U x' y' = kmul (co o) Kc (V b' b) /\ amp_factor x' y' = 1) /\
+           ((forall b', In b' (bits nq) -> y <> drn b') -> amp_perm (co o) U x' y' = k0 (co o))).
+Proof. exact (fun K o e c nq Kc V Dd => conj (fun H => H) (fun H => H)). Qed.
+Print Assumptions C12_accepts_dual_rail_def.
+
+(* with no constraint it is acts_as_dual_rail *)
+Theorem C12_accepts_none_is_acts :
+  forall (K : Type) (o : ops K) (e : env (K:=K)) (c : circ (K:=K)) (nq : nat) (Kc : K * K) (V : qmat (K * K)),
+    accepts_dual_rail o e c nq Kc V (fun _ => false) -> acts_as_dual_rail o e c nq Kc V.
+Proof.
+  exact (fun K o e c nq Kc V H =>
+           proj2 (acts_iff o e c nq Kc V) (dr_acts_ps_none o e c nq Kc V (proj1 (accepts_iff o e c nq Kc V _) H))).
+Qed.
+Print Assumptions C12_accepts_none_is_acts.
+
+(* ---- the leakage of a post-selected gate, by counting ---- *)
+Theorem C12_gate_conserves_photons :
+  forall (K : Type) (o : ops K), StarRing o ->
+  forall (e : env (K:=K)) (sub : circ (K:=K)) (k : nat) (US : @mat (K * K)) (v w xs ys : list nat),
+    WFH sub -> c_n sub = 2 * k + length (c_in sub) -> length (c_in sub) = length (c_out sub) ->
+    dvals (c_out sub) = dvals (c_in sub) -> length v = 2 * k -> length w = 2 * k ->
+    full_st (c_n sub) 0 (c_in sub) v xs -> full_st (c_n sub) 0 (c_out sub) w ys ->
+    osum w <> osum v -> amp_perm (co o) US xs ys = k0 (co o).
+Proof. exact (fun K o SR => @gate_conserves K o SR). Qed.
+Print Assumptions C12_gate_conserves_photons.
+
+Theorem C12_postselected_leak_counts :
+  forall (k : nat) (w : list nat), length w = 2 * k -> osum w = k ->
+    (forall i j, i < k -> j < k -> i <> j -> cnt w i = 1 \/ cnt w j = 1) ->
+    exists b', In b' (bits k) /\ w = drn b'.
+Proof. exact postselected_leak_counts. Qed.
+Print Assumptions C12_postselected_leak_counts.
+
+(* ---- the gate hypothesis (table; zero leakage only when lf) and the step lemma ---- *)
+Theorem C12_gate_tab_def :
+  forall (K : Type) (o : ops K) (e : env (K:=K)) (sub : circ (K:=K)) (k : nat) (kG : K * K) (M : qmat (K * K)) (lf : bool),
+    gate_tab o e sub k kG M lf <->
+    (WFH sub /\ Forall swnd (c_spec sub) /\ 1 <= k /\
+     c_n sub = 2 * k + length (c_in sub) /\ length (c_in sub) = length (c_out sub) /\
+     dvals (c_out sub) = dvals (c_in sub) /\ (forall kv, In kv (c_in sub) -> snd kv <= 1) /\
+     exists US, build o e sub = Ok (c_n sub, US) /\
+       (forall b b' xs ys, In b (bits k) -> In b' (bits k) ->
+          full_st (c_n sub) 0 (c_in sub) (drn b) xs -> full_st (c_n sub) 0 (c_out sub) (drn b') ys ->
+          amp_perm (co o) US xs ys = kmul (co o) kG (M b' b)) /\
+       (lf = true ->
+        forall b w xs ys, In b (bits k) -> length w = 2 * k ->
+          full_st (c_n sub) 0 (c_in sub) (drn b) xs -> full_st (c_n sub) 0 (c_out sub) w ys ->
+          (forall b', In b' (bits k) -> w <> drn b') -> amp_perm (co o) US xs ys = k0 (co o))).
+Proof. exact (fun K o e sub k kG M lf => conj (fun H => H) (fun H => H)). Qed.
+Print Assumptions C12_gate_tab_def.
+
+(* from C13's statement of a post-selected gate (C13_CZ, C13_CNOT, C13_CCZ, C13_CCNOT: table only) *)
+Theorem C12_gate_tab_from_C13 :
+  forall (K : Type) (o : ops K) (e : env (K:=K)) (gt : @gate K) (k : nat) (kG : K * K) (M : qmat (K * K)),
+    (forall b b', In b (bits k) -> In b' (bits k) ->
+       sim_amp o gt (dr b) (dr b') = Ok (kmul (co o) kG (M b' b), 1)) ->
+    WFH (g_circ gt) -> Forall swnd (c_spec (g_circ gt)) -> 1 <= k ->
+    c_n (g_circ gt) = 2 * k + length (c_in (g_circ gt)) ->
+    length (c_in (g_circ gt)) = length (c_out (g_circ gt)) ->
+    dvals (c_out (g_circ gt)) = dvals (c_in (g_circ gt)) ->
+    (forall kv, In kv (c_in (g_circ gt)) -> snd kv <= 1) ->
+    build o e (g_circ gt) = Ok (c_n (g_circ gt), g_U gt) ->
+    gate_tab o e (g_circ gt) k kG M false.
+Proof. exact (fun K o => @gate_tab_of_c13 K o). Qed.
+Print Assumptions C12_gate_tab_from_C13.
+
+(* Dd / Dd' = the dead qubits before / after the gate.  [blk_kill]: a dead qubit INSIDE the block is
+   allowed when the gate sends a wrong photon number on it to amplitude 0 on the outputs that are fine
+   on the block's dead qubits (single-qubit gates: photon conservation; SWAP: it carries the pair) *)
+Theorem C12_dual_rail_step_ps :
+  forall (K : Type) (o : ops K), StarRing o -> ZMorph o ->
+  forall (ninv : nat -> K * K), (forall k, 0 < k -> kmul (co o) (kofnat (co o) k) (ninv k) = k1 (co o)) ->
+  forall (e : env (K:=K)) (c sub c' : circ (K:=K)) (nq q k : nat) (Kc kG : K * K) (V M : qmat (K * K))
+         (g lf : bool) (Dd Dd' : nat -> bool),
+    accepts_dual_rail o e c nq Kc V Dd -> gate_tab o e sub k kG M lf -> q + k <= nq ->
+    (lf = true \/ forall i j, i < k -> j < k -> i <> j -> Dd' (q + i) = true \/ Dd' (q + j) = true) ->
+    (forall p, p < nq -> p < q \/ q + k <= p -> Dd p = true -> Dd' p = true) ->
+    (forall i, i < k -> Dd (q + i) = true -> blk_kill o e sub k q Dd' i) ->
+    (exists c0, op_add o c sub (Z.of_nat (2 * q)) g = Ok c0) /\
+    (op_add o c sub (Z.of_nat (2 * q)) g = Ok c' ->
+     accepts_dual_rail o e c' nq (kmul (co o) Kc kG) (lift_blk (co o) M q k V) Dd').
+Proof. exact (fun K o SR ZM ninv Hn => @dual_rail_step_ps K o SR ZM ninv Hn). Qed.
+Print Assumptions C12_dual_rail_step_ps.
+
+Theorem C12_blk_kill_def :
+  forall (K : Type) (o : ops K) (e : env (K:=K)) (sub : circ (K:=K)) (k q : nat) (Dd' : nat -> bool) (i : nat),
+    blk_kill o e sub k q Dd' i <->
+    (forall US, build o e sub = Ok (c_n sub, US) ->
+     forall w_in w_out xs ys, length w_in = 2 * k -> length w_out = 2 * k ->
+       full_st (c_n sub) 0 (c_in sub) w_in xs -> full_st (c_n sub) 0 (c_out sub) w_out ys ->
+       cnt w_in i <> 1 -> (forall j, j < k -> Dd' (q + j) = true -> cnt w_out j = 1) ->
+       amp_perm (co o) US xs ys = k0 (co o)).
+Proof. exact (fun K o e sub k q Dd' i => conj (fun H => H) (fun H => H)). Qed.
+Print Assumptions C12_blk_kill_def.
+
+(* ---- the theorem ----
+   [kof op] = the scalar of the gate object that emitted operation op adds; [op_fact]: that object
+   compiles and satisfies its C13 statement (table; zero leakage for the heralded ones);
+   [rule_set rules q] = q is one of the qubits of the returned PostSelection rules ("exactly one photon
+   on modes 2q, 2q+1"); Vsrc, run_emitted as in C12_convert_heralded_correct.
+   Conclusion: every output the rules accept is dr b' with amplitude K * V_src[b',b], or has amplitude 0. *)
+Theorem C12_op_fact_def :
+  forall (K : Type) (o : ops K) (h r2 r3i qi gm r7 : K) (ang : nat -> K * K) (kof : eop -> K * K) (op : eop),
+    op_fact o h r2 r3i qi gm r7 ang kof op =
+    match op with
+    | ECZ hh m => exists gt, gate_of o h r2 r3i qi gm r7 ang op = Ok gt /\
+                             gate_tab o (env0 o) (g_circ gt) 2 (kof op) (spec_CZ (co o)) hh
+    | ECX hh t m => t <= 1 -> exists gt, gate_of o h r2 r3i qi gm r7 ang op = Ok gt /\
+                             gate_tab o (env0 o) (g_circ gt) 2 (kof op) (spec_CNOT (co o) t) hh
+    | ECCZ m => exists gt, gate_of o h r2 r3i qi gm r7 ang op = Ok gt /\
+                           gate_tab o (env0 o) (g_circ gt) 3 (kof op) (spec_CCZ (co o)) false
+    | ECCX t m => t <= 2 -> exists gt, gate_of o h r2 r3i qi gm r7 ang op = Ok gt /\
+                           gate_tab o (env0 o) (g_circ gt) 3 (kof op) (spec_CCNOT (co o) t) false
+    | _ => True
+    end.
+Proof. exact (fun K o h r2 r3i qi gm r7 ang kof op => eq_refl). Qed.
+Print Assumptions C12_op_fact_def.
+
+Theorem C12_convert_postselected_correct :
+  forall (K : Type) (o : ops K), StarRing o -> ZMorph o ->
+  forall (ninv : nat -> K * K), (forall k, 0 < k -> kmul (co o) (kofnat (co o) k) (ninv k) = k1 (co o)) ->
+  forall (h r2 r3i qi gm r7 : K) (ang : nat -> K * K),
+    kmul o h h = kq o 1 2 ->
+  forall (kof : eop -> K * K) (nq : nat) (gs : list qgate) (ops : list eop) (rules : option (list nat)),
+    Forall (ConvertP.in_range nq) gs -> Forall (fun g => NoDup (g_qubits g)) gs ->
+    convert true gs = Ok (ops, rules) ->
+    Forall (op_fact o h r2 r3i qi gm r7 ang kof) ops ->
+    exists c, run_emitted o h r2 r3i qi gm r7 ang ops (new_circ (2 * nq)) = Ok c /\
+              accepts_dual_rail o (env0 o) c nq (kprod_ps o kof ops (k1 (co o))) (Vsrc o h ang nq gs) (rule_set rules).
+Proof. exact (fun K o SR ZM ninv Hn => @convert_postselected_correct K o SR ZM ninv Hn). Qed.
+Print Assumptions C12_convert_postselected_correct.
+
+Theorem C12_kprod_ps_def :
+  forall (K : Type) (o : ops K) (kof : eop -> K * K) (ops : list eop) (rules : option (list nat)) (q : nat),
+    kprod_ps o kof ops (k1 (co o)) =
+      fold_left (fun a op => kmul (co o) a (match op with
+                                            | EGate1 _ _ _ | ESwap _ _ _ _ _ => k1 (co o)
+                                            | _ => kof op
+                                            end)) ops (k1 (co o)) /\
+    rule_set rules q = match rules with Some l => memb q l | None => false end.
+Proof. exact (fun K o kof ops rules q => conj eq_refl eq_refl). Qed.
+Print Assumptions C12_kprod_ps_def.
+
+(* if each gate scalar has an invertible squared modulus (wof op its inverse) so has K *)
+Theorem C12_kprod_ps_unit :
+  forall (K : Type) (o : ops K), StarRing o ->
+  forall (kof wof : eop -> K * K) (ops : list eop),
+    (forall op, In op ops ->
+       kmul (co o) (wof op) (kmul (co o) (op_kps o kof op) (kconj (co o) (op_kps o kof op))) = k1 (co o)) ->
+    forall K0 w0 : K * K, kmul (co o) (kmul (co o) K0 (kconj (co o) K0)) w0 = k1 (co o) ->
+      kmul (co o) (kmul (co o) (kprod_ps o kof ops K0) (kconj (co o) (kprod_ps o kof ops K0))) (wprod_ps o wof ops w0)
+      = k1 (co o).
+Proof. exact (fun K o SR => @kprod_ps_unit K o SR). Qed.
+Print Assumptions C12_kprod_ps_unit.
+
+(* tower A (C13: CZ, CNOT k = -1/3; CCZ, CCNOT k = i sqrt 2 / 12): every program whose emitted
+   multi-qubit gates are all post-selected ([op_postselected]: no ECZ true / ECX true);
+   [wprod_ps oA wofA ops 1] = 9^(#CZ,CNOT) * 72^(#CCZ,CCNOT) *)
+Theorem C12_convert_postselected_correct_tower_A :
+  forall (ang : nat -> KA * KA) (nq : nat) (gs : list qgate) (ops : list eop) (rules : option (list nat)),
+    Forall (ConvertP.in_range nq) gs -> Forall (fun g => NoDup (g_qubits g)) gs ->
+    convert true gs = Ok (ops, rules) -> Forall op_postselected ops ->
+    (exists c, run_emitted oA a_h a_r2 a_r3i (k0 oA) (k0 oA) a_r7 ang ops (new_circ (2 * nq)) = Ok c /\
+               accepts_dual_rail oA (env0 oA) c nq (kprod_ps oA kofA ops (k1 cA)) (Vsrc oA a_h ang nq gs) (rule_set rules)) /\
+    kmul cA (kmul cA (kprod_ps oA kofA ops (k1 cA)) (kconj cA (kprod_ps oA kofA ops (k1 cA))))
+         (wprod_ps oA wofA ops (k1 cA)) = k1 cA.
+Proof. exact convert_postselected_correct_A. Qed.
+Print Assumptions C12_convert_postselected_correct_tower_A.
+
+Example C12_convert_postselected_example :
+  convert true exps_gs = Ok ([EGate1 Gh 0 0; ECX false 1 0; ECX false 1 2], Some [2; 0; 1]) /\
+  Forall (ConvertP.in_range 3) exps_gs /\ Forall (fun g => NoDup (g_qubits g)) exps_gs /\ Forall op_postselected exps_ops /\
+  check_table oA exps_gate 3 exps_K (Vsrc oA a_h exps_ang 3 exps_gs) = true /\
+  keqb cA exps_K (kq oA 1 9, k0 oA) = true /\
+  keqb cA (kmul cA (kofZ cA 81) (kmul cA exps_K (kconj cA exps_K))) (k1 cA) = true /\
+  exps_accepted_are_dr = true /\
+  exps_some_leak = true /\
+  match exps_gate with Ok gt => (c_n (g_circ gt), c_in (g_circ gt)) | Err _ => (0, []) end
+  = (10, [(0, 0); (6, 0); (3, 0); (9, 0)]).
+Proof. exact convert_postselected_example. Qed.
